@@ -121,7 +121,8 @@ var byteMuts = []string{"flip", "flip", "flip", "set", "trunc", "extend", "splic
 var structMuts = []string{"swap_blocks", "drop_last", "drop_mid", "dup_block", "subst_sig", "subst_key", "subst_block", "subst_whole",
 	"insert_attacker", "append_attacker", "replace_attacker", "append_captured", "rekey", "proof_from_donor", "proof_attacker_seal",
 	"proof_attacker_secret", "seal_captured", "seal_sig_flip", "last_key_flip", "block_flip", "sig_flip", "key_flip", "secret_flip",
-	"rootid", "alg", "unknown_field", "sig_len", "key_len", "secret_len"}
+	"rootid", "alg", "unknown_field", "sig_len", "key_len", "secret_len",
+	"proof_crafted", "proof_crafted", "proof_crafted", "forge_tail", "forge_tail"}
 
 func (h *hist) mutation(kinds []string) vm.Mut {
 	r := h.r
@@ -131,7 +132,7 @@ func (h *hist) mutation(kinds []string) vm.Mut {
 		b := make([]byte, 1+r.Intn(8))
 		r.Read(b)
 		mu.Data = hex.EncodeToString(b)
-	case "insert_attacker", "append_attacker", "replace_attacker", "append_captured":
+	case "insert_attacker", "append_attacker", "replace_attacker", "append_captured", "forge_tail":
 		mu.Data = h.attackerBlock()
 	case "rootid":
 		mu.Val = []int{-1, 0, 1, 2, 7}[r.Intn(5)]
@@ -279,7 +280,8 @@ func init() {
 
 // ---- C09
 
-var sealMuts = []string{"seal_sig_flip", "last_key_flip", "block_flip", "sig_flip", "proof_attacker_seal", "proof_from_donor", "drop_last", "swap_blocks", "subst_block", "flip"}
+var sealMuts = []string{"seal_sig_flip", "last_key_flip", "block_flip", "sig_flip", "proof_attacker_seal", "proof_from_donor", "drop_last", "swap_blocks", "subst_block", "flip",
+	"forge_tail", "forge_tail", "proof_crafted", "rekey", "replace_attacker", "key_flip"}
 
 func genC09(r *rand.Rand, run int, tier string) *vm.Plan {
 	h := newHist(r, 1, false)
